@@ -297,10 +297,29 @@ def _tag_tests(f, var):
             continue
         parts = n.test.values if isinstance(n.test, ast.BoolOp) and isinstance(n.test.op, ast.And) else [n.test]
         for p in parts:
+            if isinstance(p, ast.Compare) and isinstance(p.left, ast.Name) and len(p.ops) == 1:
+                # `tag = A['tag']` (the only binding of the local) and a test on `tag`
+                ds = f.assigns().get(p.left.id, [])
+                if len(ds) == 1 and isinstance(ds[0][0], ast.Subscript) and const_str(ds[0][0].slice) == 'tag' \
+                        and isinstance(ds[0][0].value, ast.Name) and ds[0][0].value.id == var:
+                    p = ast.Compare(left=ds[0][0], ops=p.ops, comparators=p.comparators)
             if isinstance(p, ast.Compare) and isinstance(p.left, ast.Subscript) and const_str(p.left.slice) == 'tag' \
                     and isinstance(p.left.value, ast.Name) and p.left.value.id == var and len(p.ops) == 1:
                 c = p.comparators[0]
-                vals = [const_str(e) for e in c.elts] if isinstance(c, ast.Tuple) else [const_str(c)]
+                if isinstance(c, ast.Attribute) and isinstance(c.value, ast.Name) and f.owner_class is not None \
+                        and (c.value.id in ('self', 'cls') or c.value.id == f.owner_class.name):
+                    # a class-level constant table (never stored to by any method): its keys / elements
+                    cv = f.owner_class.class_attrs.get(c.attr)
+                    stored = any(isinstance(x, ast.Attribute) and x.attr == c.attr and isinstance(x.ctx, (ast.Store, ast.Del))
+                                 for x in ast.walk(f.module.tree)) or any(
+                        isinstance(x, ast.Subscript) and isinstance(x.ctx, (ast.Store, ast.Del)) and isinstance(x.value, ast.Attribute) and x.value.attr == c.attr
+                        for x in ast.walk(f.module.tree))
+                    if cv is not None and not stored:
+                        c = cv
+                if isinstance(c, ast.Dict):
+                    vals = [const_str(e) if e is not None else None for e in c.keys]
+                else:
+                    vals = [const_str(e) for e in c.elts] if isinstance(c, (ast.Tuple, ast.List, ast.Set)) else [const_str(c)]
                 if None in vals:
                     continue
                 if isinstance(p.ops[0], (ast.Eq, ast.In)):
@@ -446,9 +465,17 @@ def r40_action_key_flow(ctx):
                                 ok, how = True, "read under section %s, which ElectionRecord.report invokes only after its " \
                                                 "log/round fast paths" % '/'.join(sorted(secs))
                 else:
-                    sites = [c for c in dump.own_nodes() if isinstance(c, ast.Call) and isinstance(c.func, ast.Attribute)
+                    # (the call may sit in a helper nested in dump that takes the action as a parameter)
+                    sites = [(g_, c) for g_ in [dump] + list(dump.children.values()) for c in g_.own_nodes()
+                             if isinstance(c, ast.Call) and isinstance(c.func, ast.Attribute)
                              and c.func.attr == 'dump' and any(kw.arg == 'action' for kw in c.keywords)]
-                    if sites and all(_log_excluded(ctx, dump, c, _action_var(dump)) for c in sites):
+
+                    def avar(g_, c):
+                        v_ = [kw.value for kw in c.keywords if kw.arg == 'action'][0]
+                        if isinstance(v_, ast.Name) and (g_ is not dump):
+                            return v_.id
+                        return _action_var(dump)
+                    if sites and all(_log_excluded(ctx, g_, c, avar(g_, c)) for g_, c in sites):
                         ok, how = True, 'dump hooks receive an action only in the branch that excludes log actions'
                 ctx.check(ok, R, node, h, what, how, "action['%s'] is not stored for 'log' actions, and this read is reachable for one" % k)
     # ElectionRecord.report / dump themselves
@@ -682,14 +709,24 @@ def r42_dump_arity(ctx):
         seen.add(h.qualname)
         lv = h.params[1]
         top = [s for s in h.node.body if isinstance(s, ast.If)]
-        need(len(top) == 1 and unparse(top[0].test) == 'cid is None', 'R42: %s is not `if cid is None: ... else: ...`' % h.qualname)
+        def none_test(t, pname):
+            """True for `<pname> is None`, False for `<pname> is not None`, else None"""
+            if isinstance(t, ast.Compare) and len(t.ops) == 1 and isinstance(t.left, ast.Name) and t.left.id == pname \
+                    and isinstance(t.comparators[0], ast.Constant) and t.comparators[0].value is None:
+                return True if isinstance(t.ops[0], ast.Is) else (False if isinstance(t.ops[0], ast.IsNot) else None)
+            return None
+        need(len(h.params) >= 4, 'R42: %s does not take (line, action, cid, cstate)' % h.qualname)
+        p_action, p_cid = h.params[2], h.params[3]
+        need(len(top) == 1 and none_test(top[0].test, p_cid) is not None, 'R42: %s is not `if cid is None: ... else: ...`' % h.qualname)
+        cid_none, cid_some = (top[0].body, top[0].orelse) if none_test(top[0].test, p_cid) else (top[0].orelse, top[0].body)
 
         def split(stmts):
-            inner = [s for s in stmts if isinstance(s, ast.If) and unparse(s.test) == 'action is None']
+            inner = [s for s in stmts if isinstance(s, ast.If) and none_test(s.test, p_action) is not None]
             if not inner:
                 return _appended_counts(h, lv, stmts), _appended_counts(h, lv, stmts)
-            return _appended_counts(h, lv, inner[0].body), _appended_counts(h, lv, inner[0].orelse)
-        for label, stmts in (('per-election', top[0].body), ('per-candidate', top[0].orelse)):
+            hb, db = (inner[0].body, inner[0].orelse) if none_test(inner[0].test, p_action) else (inner[0].orelse, inner[0].body)
+            return _appended_counts(h, lv, hb), _appended_counts(h, lv, db)
+        for label, stmts in (('per-election', cid_none), ('per-candidate', cid_some)):
             hd, dt = split(stmts)
             ctx.check(hd == dt, R, top[0], h, 'dump hook appends as many %s data fields as header fields' % label,
                       'header branch appends %d, data branch appends %d' % (hd, dt),
